@@ -209,11 +209,14 @@ func init() {
 			// (the listener workload of C10; a receive path that hands a shared buffer to another goroutine shows there, not in a race report:
 			// the conflicting write happens inside the kernel)
 			listener := Batch{Mode: "plain", RunAs: "C10", Keys: []string{"event:content", "event:lost", "event:duplicate", "event:reordered", "from-invalid-datagram", "changed-after-delivery", "panic"}, Timeout: 30 * time.Minute, Procs: 4}
+			// "the reply to its own request": a datagram that reaches a directed call's port from another address than its controller's -
+			// the late reply of another controller, any other host - is not it (decoy cases of C03's loopback layer)
+			decoy := Batch{Mode: "loopback", RunAs: "C03", Keys: []string{"reply-from-another-address", "after-a-late-reply", "panic"}, Timeout: 20 * time.Minute, Procs: 8}
 			if tier == "thorough" {
 				return []Batch{{Mode: "race", Race: true, Procs: 2, Timeout: 40 * time.Minute}, {Mode: "race", Race: true, Procs: 4, Timeout: 40 * time.Minute}, {Mode: "race", Race: true, Procs: 16, Timeout: 40 * time.Minute},
-					{Mode: "race", Race: true, Procs: 8, Timeout: 40 * time.Minute}, {Mode: "plain", Procs: 2, Timeout: 40 * time.Minute}, {Mode: "plain", Procs: 16, Timeout: 40 * time.Minute}, {Mode: "plain", Procs: 4, Timeout: 40 * time.Minute}, {Mode: "plain", Procs: 8, Timeout: 40 * time.Minute}, queue, listener, listener}
+					{Mode: "race", Race: true, Procs: 8, Timeout: 40 * time.Minute}, {Mode: "plain", Procs: 2, Timeout: 40 * time.Minute}, {Mode: "plain", Procs: 16, Timeout: 40 * time.Minute}, {Mode: "plain", Procs: 4, Timeout: 40 * time.Minute}, {Mode: "plain", Procs: 8, Timeout: 40 * time.Minute}, queue, listener, listener, decoy}
 			}
-			return []Batch{{Mode: "race", Race: true, Procs: 4, Timeout: 15 * time.Minute}, {Mode: "race", Race: true, Procs: 16, Timeout: 15 * time.Minute}, {Mode: "plain", Procs: 2, Timeout: 15 * time.Minute}, {Mode: "plain", Procs: 8, Timeout: 15 * time.Minute}, queue, listener}
+			return []Batch{{Mode: "race", Race: true, Procs: 4, Timeout: 15 * time.Minute}, {Mode: "race", Race: true, Procs: 16, Timeout: 15 * time.Minute}, {Mode: "plain", Procs: 2, Timeout: 15 * time.Minute}, {Mode: "plain", Procs: 8, Timeout: 15 * time.Minute}, queue, listener, decoy}
 		}}
 }
 
